@@ -220,6 +220,14 @@ pub fn replay_c20(v: &Value) -> Vec<Failure> {
     out
 }
 
+/// the `PAIR` line (pairing of two position squitters in both orders) as this build renders it
+pub fn pair_line_std(first: &[u8], second: &[u8]) -> Option<String> {
+    let mut prev = None;
+    let _ = transcript::frame_transcript(first, &mut prev);
+    let t = transcript::frame_transcript(second, &mut prev);
+    t.lines().find(|l| l.starts_with("PAIR ")).map(|l| l.to_string())
+}
+
 fn short_s(s: &str) -> String {
     let t: String = s.chars().take(260).collect();
     t.replace('\n', " | ")
